@@ -19,7 +19,7 @@ func init() {
 			"R3 dispatch agreement — the first-token set of parseDDL / parseDMLInternal / the query path is included in the guard under which parseStatementInternal routes to it, and the specific entry points reach the same internal productions as ParseStatement. " +
 			"R4 the list entry points hand the generic parseStatements the same production their single-statement sibling calls. " +
 			"Decides: contradictions between a guard and what it guards. Does not decide: acceptance of every sentence of the reference grammar.",
-		Rules: []ruleFn{ruleC08R1, ruleC08R2, ruleC08R3, ruleC08R4, ruleC08R5, ruleC08R6, ruleC08R7, ruleC11R4, ruleC16R3, ruleC08R8, ruleC14R3, ruleC08R9, ruleC08R10},
+		Rules: []ruleFn{ruleC08R1, ruleC08R2, ruleC08R3, ruleC08R4, ruleC08R5, ruleC08R6, ruleC08R7, ruleC11R4, ruleC16R3, ruleC08R8, ruleC14R3, ruleC08R9, ruleC08R10, ruleC16R5},
 	})
 }
 
